@@ -169,7 +169,10 @@ def run(prop, tier, seed, replay=None):
                                          ["put", "cal1", "a.ics", "@model:1"], ["put", "cal2", "a.ics", "@model:3"],
                                          ["put", "cal1", "b.ics", "@model:7"],
                                          ["multiget", "cal1", [["live", "a.ics"], ["othercoll:cal2", "a.ics"], ["live", "b.ics"]]],
-                                         ["multiget", "cal2", [["othercoll:cal1", "a.ics"], ["live", "a.ics"]]]]),
+                                         ["multiget", "cal2", [["othercoll:cal1", "a.ics"], ["live", "a.ics"]]],
+                                         # several spellings of one member's path in one request
+                                         ["multiget", "cal1", [["live", "a.ics"], ["dotpath", "a.ics"], ["dotpath", "b.ics"],
+                                                               ["live", "b.ics"], ["dotpath", "zz.ics"], ["missing", "zz.ics"]]]]),
         # display names a client echoes back: the default one (last path segment), the current one,
         # a removed one - on both kinds of metadata storage
         "echoed-names": (HTTP_CONFIGS[0], [["mk", "cal1", "calendar"], ["mk", "ab1", "addressbook"],
